@@ -103,6 +103,17 @@ pub struct PartState {
     pub sleep_polls: u32,
     pub in_delay: bool,
     pub seen: bool,
+    /// left through an exit point: the thread is about to return and drop its channel ends, which
+    /// is only certain once the OS thread is gone
+    pub terminating: bool,
+}
+
+impl PartState {
+    /// an exited participant whose thread has not terminated yet can still change the state
+    /// (dropping a sender / receiver / the upstream iterator)
+    pub fn still_terminating(&self) -> bool {
+        self.terminating && self.tid.map(|t| thread_state(t).is_some()).unwrap_or(false)
+    }
 }
 
 #[derive(Clone, Debug, Default)]
@@ -414,11 +425,13 @@ impl Sched {
             Mode::Off => {
                 if pt.is_exit() {
                     st.parts[p].exited = true;
+                    st.parts[p].terminating = true;
                 }
             }
             Mode::Chaos => {
                 if pt.is_exit() {
                     st.parts[p].exited = true;
+                    st.parts[p].terminating = true;
                 }
                 let seed = st.chaos_seed;
                 let level = st.chaos_level as u64;
@@ -486,6 +499,7 @@ impl Sched {
                 st.parts[p].parked = None;
                 if pt.is_exit() {
                     st.parts[p].exited = true;
+                    st.parts[p].terminating = true;
                     if p >= 1 && p <= st.nworkers {
                         st.shadow.live_senders = st.shadow.live_senders.saturating_sub(1);
                     }
@@ -716,6 +730,10 @@ pub fn control_abortable(
                     stable = false;
                     break;
                 }
+                if st.parts.iter().any(|q| q.still_terminating()) {
+                    // a thread that left through its exit point has not finished returning yet
+                    stable = false;
+                }
                 for &i in &blocked {
                     let q = &st.parts[i];
                     // a thread whose /proc entry is gone has terminated: it will not move either
@@ -911,6 +929,9 @@ pub fn free_running_stuck(s: &Sched, samples: u32, period: Duration) -> Option<S
         if prev.len() == n {
             for (i, q) in st.parts.iter().enumerate() {
                 if q.exited {
+                    if q.still_terminating() {
+                        all_stuck = false;
+                    }
                     continue;
                 }
                 any_live = true;
